@@ -13,7 +13,7 @@ RULE_TEXT = ("SYS driver, paired runs: every scenario is simulated twice in one 
              "distinct = distinct canonical logs")
 claims = base.prefix_claims("C07.")
 WANT_PROBES = ["seed_pairs_compared", "uuid_stream_changed"]
-N_FRESH = {"quick": 24, "thorough": 150}
+N_FRESH = {"quick": 60, "thorough": 300}
 
 
 def make(family, rng, tier):
@@ -41,7 +41,7 @@ def sample(scn, out):
 
 def extra(tier, seed):
     n = N_FRESH[tier]
-    seeds = [1, 4242] if tier == "quick" else [1, 2, 3, 4242, 99991, 7, 8, 9]
+    seeds = [1, 2, 3, 5, 4242] if tier == "quick" else [1, 2, 3, 4, 5, 6, 7, 8, 9, 4242, 99991]
     procs = [(hs, repro.fresh_interpreter_start(seed, n, hs)) for hs in seeds]
     base_d = repro.digests_for(seed, n, tier)
     viol = []
